@@ -33,6 +33,9 @@ type c07sCase struct {
 	Resume   bool `json:"resume"`
 	FullPar  int  `json:"source_rdb_parallel"`
 	Parallel int  `json:"parallel"`
+	// TailSplit: 0: RDB and command stream arrive in one go; k: the last k bytes of the RDB (its
+	// checksum is the last 8) arrive one second later, together with the command stream
+	TailSplit int `json:"rdb_tail_split,omitempty"`
 }
 
 func c07sResp(argv ...string) []byte {
@@ -58,6 +61,7 @@ func c07sCheckpoints(tgt *mredis.Server, db int) []*mredis.Entry {
 }
 
 func c07sRun(t *testing.T, c c07sCase) (kind, what string) {
+	defer ev.Watch(fmt.Sprintf("whole sync command %+v", c), 150*time.Second, c)()
 	kitCommon()
 	conf.Options.Type = conf.TypeSync
 	conf.Options.SourceType, conf.Options.TargetType = "standalone", "standalone"
@@ -142,8 +146,17 @@ func c07sRun(t *testing.T, c c07sCase) (kind, what string) {
 			})
 			go (&CmdSync{}).Main()
 			answered := map[string]int{}
+			type lateWrite struct {
+				conn net.Conn
+				data []byte
+			}
+			var later []lateWrite
 			for step := 0; step < 10; step++ {
 				synctest.Wait()
+				for _, lw := range later {
+					lw.conn.Write(lw.data)
+				}
+				later = nil
 				for _, a := range addrs {
 					m := masters[a]
 					ps := m.Psyncs()
@@ -152,8 +165,13 @@ func c07sRun(t *testing.T, c c07sCase) (kind, what string) {
 						answered[a]++
 						conn := m.Conn(p.Conn)
 						conn.Write([]byte(fmt.Sprintf("\n$%d\r\n", len(rdbs[a]))))
-						conn.Write(rdbs[a])
-						conn.Write(streams[a])
+						if k := c.TailSplit; k > 0 && k < len(rdbs[a]) {
+							conn.Write(rdbs[a][:len(rdbs[a])-k])
+							later = append(later, lateWrite{conn, append(append([]byte{}, rdbs[a][len(rdbs[a])-k:]...), streams[a]...)})
+						} else {
+							conn.Write(rdbs[a])
+							conn.Write(streams[a])
+						}
 					}
 				}
 				time.Sleep(time.Second)
@@ -274,7 +292,7 @@ func TestVerif_C07S(t *testing.T) {
 				if !ev.Mine(idx) {
 					continue
 				}
-				c := c07sCase{src, resume, fp, 2}
+				c := c07sCase{src, resume, fp, 2, 0}
 				k, what := c07sRun(t, c)
 				n++
 				h := ev.HashS(fmt.Sprint(c))
@@ -284,6 +302,26 @@ func TestVerif_C07S(t *testing.T) {
 				if k != "" {
 					ev.Violate("C07|sync-main|"+k, fmt.Sprintf("%s (%d sources, resume=%v, source.rdb.parallel=%d)", what, src, resume, fp), c)
 				}
+			}
+		}
+	}
+	// the end of the RDB arrives late: the command phase must not start on the shared reader
+	// before the RDB (checksum included) has been consumed
+	for _, k := range []int{1, 4, 8, 9, 12} {
+		for _, src := range []int{1, 2} {
+			idx++
+			if !ev.Mine(idx) {
+				continue
+			}
+			c := c07sCase{src, src == 2, src, 2, k}
+			kk, what := c07sRun(t, c)
+			n++
+			h := ev.HashS(fmt.Sprint(c))
+			ev.State(h)
+			ev.Nontrivial(h)
+			ev.Outcome("sync-main:" + kk)
+			if kk != "" {
+				ev.Violate("C07|sync-main|"+kk, fmt.Sprintf("%s (%d sources, resume=%v, last %d RDB bytes delayed)", what, src, c.Resume, k), c)
 			}
 		}
 	}
